@@ -131,8 +131,12 @@ def compare(res, ref, got, idxs, prediction, xform, qs, what, d, Xq, goals, meta
             v = float(got[r, c])
             if xform:
                 elo, ehi = mu_of(gam, lo), mu_of(gam, hi)
-                slack = 1e-12 * max(abs(elo), abs(ehi)) + 1e-300
-                ok = (elo - slack <= v <= ehi + slack)
+                if math.isfinite(elo) and math.isfinite(ehi):
+                    slack = 1e-12 * max(abs(elo), abs(ehi)) + 1e-300
+                    ok = (elo - slack <= v <= ehi + slack)
+                else:       # the response-scale bound overflows binary64 (exp of a large link-scale bound)
+                    ok = (elo <= v <= ehi) or (math.isfinite(elo) and v >= elo * (1 - 1e-12))
+                    res.count('response-scale overflow')
                 expected = mu_of(gam, lp[r] + z * math.sqrt(max(var[r], 0.0)))
             else:
                 ok = lo <= v <= hi
@@ -150,7 +154,7 @@ def compare(res, ref, got, idxs, prediction, xform, qs, what, d, Xq, goals, meta
                                coef_indices=[int(i) for i in idxs]),
                     observed=v, expected=dict(value=expected, z_q=z, lp=float(lp[r]), var=float(var[r]), tolerance_link_scale=t)))
             # Coq-side execution of the generated definitions on the same inputs (a subset, small blocks first)
-            elif coq_budget[0] > 0 and len(ref.coef) <= 14 and var[r] > 1e-9 * varabs[r] and math.isfinite(v) and abs(z) < 40 and link in LINK_MU:
+            elif coq_budget[0] > 0 and len(idxs) <= 10 and len(ref.coef) <= 16 and (r + c) % 2 == 0 and var[r] > 1e-9 * varabs[r] and math.isfinite(v) and abs(z) < 40 and link in LINK_MU:
                 coq_budget[0] -= 1
                 dfl = float(ref.n - ref.edof)
                 ppf_n = '(fun _ => %s)' % rlit(z)
@@ -270,7 +274,7 @@ def rejection_checks(res, gam, Xq, d):
 def run(res):
     rng = common.rng_for(res.seed, PROP)
     nfits = 36 if res.tier == 'quick' else 400
-    ncoq = 90 if res.tier == 'quick' else 900
+    ncoq = 64 if res.tier == 'quick' else 800
     res.rule = ('seeded fitted models of all six classes x {n>m, n=m, n<m} x weights x term mixes (splines, linear, factor, tensor; with and without '
                 'intercept; user-supplied and estimated scale); query rows = training rows, interior points and extrapolation rows (up to one data range '
                 'outside); random level vectors (1-4 levels, incl. 1e-9 .. 1-1e-9 and 1/2) and widths; confidence_intervals for every model, '
@@ -374,7 +378,7 @@ def run(res):
     if nan_levels_accepted:
         res.notes.append('observation: a NaN quantile level is not rejected (the guard is `q >= 1 or q <= 0`); all bounds come back NaN (%d models tried)' % nan_levels_accepted)
     with common.CaseDir(PROP) as cd:
-        failing, errors = common.run_interval_goals(cd, HEADER, goals, tactic='c09', shard=8, timeout=600)
+        failing, errors = common.run_interval_goals(cd, HEADER, goals, tactic='c09', shard=4, timeout=300)
     for name, out in errors:
         res.obligation('correspondence-file:' + name, False, detail=out, kind='correspondence')
     res.obligation('correspondence:generated interval definitions executed in Coq = implementation (interval-certified)', not failing and not errors,
